@@ -133,17 +133,17 @@ def sourceHashes : List (String × String) :=
       `getFuncFramePerCall`);
     * d26dd9e: getFunc no longer restores the literal's frame slot after each call (`o := …` and the epilogue removed) — the
       model's closureCall never had that step; cc65000: Execute no longer sets interp.cancelChan;
-    * final sync at the frozen HEAD 4adaaf3 (reviewed against callBin ba3c7c394daa2733, call 13deaf5e1d58559d, genInterfaceWrapper
+    * final sync at the frozen HEAD 48cb9d4 (reviewed against callBin ba3c7c394daa2733, call 13deaf5e1d58559d, genInterfaceWrapper
       3467ccc00694c19f, getBinValue f0affea075ce67fd):
-      0b75d2f (F07-16) callBin's choice of argType becomes a switch whose first arm gives the argument followed by `...` the
+      57dd9e4 (F07-16) callBin's choice of argType becomes a switch whose first arm gives the argument followed by `...` the
       variadic parameter's own slice type (`argTypeSpreadArm`); in `call` the parameter type `arg` of that argument is the slice
-      type as well; 449969c (F07-17) `call` passes only the spread slice raw (`spread := hasVariadicArgs && i == len(child)-1`
-      replaces `hasVariadicArgs` in the three places; `callArgArms`); ccca582 (F05-19) the body of genInterfaceWrapper moves,
+      type as well; 5b28270 (F07-17) `call` passes only the spread slice raw (`spread := hasVariadicArgs && i == len(child)-1`
+      replaces `hasVariadicArgs` in the three places; `callArgArms`); bbd3913 (F05-19) the body of genInterfaceWrapper moves,
       unchanged, into genInterfaceWrapperValue(n, typ, value) (fingerprinted; the receiver records are read there) and
-      getBinValue wraps the value the interface holds; 5c3ec57 (F07-15) new helper bindRecv, getIndexBinMethod /
+      getBinValue wraps the value the interface holds; ab0ab0c (F07-15) new helper bindRecv, getIndexBinMethod /
       getIndexBinElemMethod call `.Method(m)` on `bindRecv(…)`, getIndexBinMethod selects a value-receiver method reached through
       a pointer on the pointee (`hostMethodBindsRecv`, `bindRecvCopies`; the three getIndexBin*Method functions are fingerprinted
-      now); 868fedf (F07-14) is in cfg.go (the type of the method value of a script pointer to a host value), not fingerprinted;
+      now); 2acc7e3 (F07-14) is in cfg.go (the type of the method value of a script pointer to a host value), not fingerprinted;
     * db2d0c1 (reviewed before, C02 F02-5): `call` skips a zero-valued argument only when its type differs from the
       parameter's; arguments of the parameter's type are always copied (what the model assumes for every argument);
     * 215471a / 2e388d6: runCfg's deferred loop calls runDeferred (own recover) with the frame lock released. -/
